@@ -12,7 +12,7 @@ from ..model_ac import ModelAC
 
 ID = "C06"
 LEVEL = "exploration"
-SHARDS = {"quick": 4, "thorough": 16}
+SHARDS = {"quick": 8, "thorough": 16}
 RULE = ("case = (token 64B, key 32B, each passed as bytes or hex string, device nonce, prior state fresh / previously "
         "authenticated with other good credentials / an earlier attempt timed out and its late replies arrived afterwards, reply mutation). Mutations: genuine; every single-bit flip of the 64-byte "
         "reply body (512, exhaustive); body length 0/32/63/65/96/128; every packet type nibble 0..15 in place of 1; error "
@@ -143,7 +143,7 @@ def check_case(case: dict):
     vloop.run(main, net)
     if out.get("setup_failed"):
         return ("setup/prior-auth-failed", "could not establish the prior authenticated state")
-    genuine = mut[0] == "genuine"
+    genuine = mut[0] == "genuine" or mut == ["len", 64]      # a 64-byte "length mutation" is the genuine reply
     if genuine:
         if out["auth"] != "ok":
             return ("genuine/rejected", f"genuine reply rejected: {out.get('auth_msg') or out.get('auth_exc')!r}")
@@ -222,7 +222,7 @@ def run(ctx) -> None:
 
     hexb = lambda s_: s_.map(lambda b: b.hex())
     mut = st.one_of(st.just(["genuine"]), st.just(["genuine"]), st.tuples(st.just("flip"), st.integers(0, 511)).map(list),
-                    st.tuples(st.just("len"), st.integers(0, 200)).map(list), st.tuples(st.just("ptype"), st.sampled_from([0, 2, 3, 4, 5, 6, 7, 8, 9, 10, 11, 12, 13, 14, 15])).map(list),
+                    st.tuples(st.just("len"), st.integers(0, 200).map(lambda n: n if n != 64 else 128)).map(list), st.tuples(st.just("ptype"), st.sampled_from([0, 2, 3, 4, 5, 6, 7, 8, 9, 10, 11, 12, 13, 14, 15])).map(list),
                     st.just(["error"]), st.just(["wrongkey", "random"]), st.tuples(st.just("wrongkey"), st.integers(0, 255)).map(list),
                     st.just(["othernonce"]), st.just(["silence"]),
                     st.tuples(st.just("raw"), hexb(st.one_of(st.binary(max_size=90), st.binary(max_size=80).map(lambda b: b"\x83\x70" + bytes([0, len(b) - 2 if len(b) >= 2 else 0, 0x20]) + b)))).map(list))
@@ -230,4 +230,4 @@ def run(ctx) -> None:
         "token": hexb(gens.tokens64()), "key": hexb(gens.keys32()), "nonce": hexb(st.binary(min_size=1, max_size=8)),
         "token_form": st.sampled_from(["bytes", "hex"]), "key_form": st.sampled_from(["bytes", "hex"]),
         "prior": st.sampled_from(["fresh", "fresh", "authed", "late"]), "mut": mut, "id": gens.device_ids(48)})
-    ctx.hyp("generated", cases, lambda c: _run_one(ctx, c), ctx.n(600, 96000))
+    ctx.hyp("generated", cases, lambda c: _run_one(ctx, c), ctx.n(2400, 128000))
